@@ -108,4 +108,6 @@ def num_to_str(n: Optional[float], fmt: str) -> Optional[str]:
             m, r = divmod(f, 6000)
             return f"{sign}{w}:{m:02d}:{r // 100:02d}.{r % 100:02d}"
 
-    return fmt % n
+    # printf padding (width, blank flag) is presentation only and is not part of
+    # the number text carried by a message
+    return (fmt % n).strip()
